@@ -45,7 +45,7 @@ def unique_names(prog, used=None):
   ops = []
   for op in prog['ops']:
     op = dict(op)
-    if op['op'] in ('param', 'counter', 'stat', 'sow'):
+    if op['op'] in ('param', 'counter', 'stat', 'sow', 'listvar'):
       n = op['name']
       while n in used:
         n = n + 'u'
@@ -85,7 +85,8 @@ def wrapper_state(w):
 
 def tonnx_case():
   return st.tuples(
-      L.case_strategy(allow=('counter', 'stat', 'tanh', 'rng', 'sow'),
+      L.case_strategy(allow=('counter', 'stat', 'tanh', 'rng', 'sow',
+                             'listvar'),
                       max_depth=2, max_ops=4, styles=('compact',)),
       st.integers(1, 3), st.lists(st.sampled_from(['counters', 'batch_stats',
                                                    'cache', 'intermediates',
@@ -103,7 +104,7 @@ def tonnx_case():
 @clause('to_nnx', strategy=tonnx_case, quick=200, thorough=8000,
         quick_shards=10, thorough_shards=16, shrink=False,
         rule='generated Linen programs (Dense/param/counter/running-stat/rng '
-        'draws/sow, nested) wrapped with bridge.ToNNX, optionally nested inside an '
+        'draws/sow/list-valued variables, nested) wrapped with bridge.ToNNX, optionally nested inside an '
         'NNX parent, lazily initialised (optionally followed by a lazy_init '
         'that raises and is caught) and called 1-3 times with a mutable '
         'filter, drawing from the wrapper\'s own streams or from fresh '
@@ -203,7 +204,7 @@ def to_nnx(case, ctx):
       require(set(fa) == set(fb) and all(close(fa[p], fb[p]) for p in fa),
               lambda: f'call {i}: wrapper state of {col} differs from the '
               'Linen reference after mutable updates')
-  stateful = L.uses(case['prog'], ('counter', 'stat'))
+  stateful = L.uses(case['prog'], ('counter', 'stat', 'listvar'))
   draws = L.uses(case['prog'], ('rng',))
   ctx.note(labels=['nested' if nested else 'flat', f'calls{ncalls}',
                    'mutable' if mutable else 'immutable',
